@@ -2,9 +2,12 @@
 """C20 - event emitter: ordered delivery, exact unsubscription, once means once
 (hotxlfp/tinyemitter.py, also through hotxlfp.Parser which inherits it)
 
-one case kind, `script`: a history of operations with the keys on (emitter / parser / debugparser = hotxlfp.Parser(debug=True)),
+case kind `script`: a history of operations with the keys on (emitter / parser / debugparser = hotxlfp.Parser(debug=True)),
 flavour (function / bound / wrapped / orphan = bound methods of host objects that only the emitter refers to), latectx, rets,
-ownnames, names, bodies, ops, fuel"""
+ownnames, snake (the first four names are call_cell_value, call_range_value, call_function, call_variable; on a Parser one
+formula is evaluated after every emit of the history), names, bodies, ops, fuel;
+case kind `hostsub` (oracle only): entry i of HOSTSUB on a plain or (key debug) a debug parser - a listener subscribed with
+on / once from INSIDE the host function AUDIT while a formula is being evaluated; the log of what it hears against a fixed list"""
 import itertools
 
 from .. import common
@@ -23,25 +26,47 @@ RULE = ('1500*scale (thorough 20000) seeded histories of 1..30 (thorough 1..60) 
         'a subscription still keeps alive, and with that of a NEW object once none does (or none was ever made); with probability 0.4 the context is a mapping bound while empty and filled afterwards '
         '(latectx); with probability 0.5 (ownnames) the first four names are the parser\'s own event names callFunction / '
         'callVariable / callCellValue / callRangeValue instead of n0, n1, ... (on a Parser its constructor has had a chance to '
-        'prepare them; the name delivered to the callbacks as first argument stays the index). 4 fixed histories (re-entrant '
+        'prepare them; the name delivered to the callbacks as first argument stays the index); with probability 0.15 (snake; it '
+        'overrides ownnames) the first four names are instead call_cell_value, call_range_value, call_function, call_variable - the '
+        'snake_case spellings of the Parser\'s own methods, names like any other - and, when the history runs on a Parser or debug '
+        'parser, after EVERY emit operation of the history (those in callback bodies too, not the probe emits) the parser evaluates one '
+        'of the 4 formulas A1+1, SUM(A1:B2), SUM(1,2)+va, A1 (picked by the emit\'s argument mod 4; stdout / stderr to a sink), i.e. '
+        'does its own work and raises its own events, which are none of these names, between the operations. 4 fixed histories (re-entrant '
         'once, off by callback of a once-listener, off of one of two callbacks, '
-        'subscribe/unsubscribe during delivery) in the nine variants plain / bound / wrapped / latectx / rets / on a Parser '
-        'under its own event names / orphan / on a debug parser / on a debug parser under its own event names = 36 cases (in 40% of the seeded histories, and in the `rets` variants, the callbacks RETURN '
+        'subscribe/unsubscribe during delivery) in the ten variants plain / bound / wrapped / latectx / rets / on a Parser '
+        'under its own event names / on a Parser under the snake names (with the formula after every emit) / orphan / on a debug parser / on a debug parser under its own event names = 40 cases (in 40% of the seeded histories, and in the `rets` variants, the callbacks RETURN '
         'something - True, a label, a count, the emitter itself, a list, 0, None in rotation - which delivery must ignore). Thorough adds every '
         'history of length <= 4 with an emit over 16 operations (2 names x 2 callbacks) for three body assignments (length 1: '
         'empty bodies only), depth 2, bare Emitter. Observed: the log of calls (callback, argument, context, name, depth) and, for '
         'the final subscriptions, two probe emits per name with the bodies switched off. Every history is compared with the '
         'model and the reference emitter unless it makes more than 3000 callback calls (then it is not judged). Non-trivial = '
-        'at least one callback was called before the probes; distinct = distinct cases.')
+        'at least one callback was called before the probes; distinct = distinct cases. '
+        'Kind hostsub (12 cases = the 6 entries of HOSTSUB x hotxlfp.Parser() / hotxlfp.Parser(debug=True); oracle only, no model '
+        'request, always non-trivial): a fresh parser with va = 1, vb = 2 and the host function AUDIT, which subscribes one logging '
+        'listener to an event with on or once WHILE a formula that calls it is being evaluated and returns 1; the formulas of the '
+        'entry are evaluated in order (output to a sink) and the log (first argument of every call of the listener, a cell by its '
+        'label) must equal the fixed list - the listener hears every emit of that name from its subscription on, the callFunction '
+        'event of the AUDIT call itself included, and nothing before: callFunction/on over AUDIT()+SUM(1,2), SUM(3,4)+ABS(1) -> '
+        'AUDIT SUM SUM ABS; callFunction/once over AUDIT()+SUM(1,2), SUM(3,4) -> AUDIT; callFunction/on over SUM(1,2), AUDIT(), '
+        'ABS(2) -> AUDIT ABS; callCellValue/on over AUDIT()+A1, B2+A1 -> A1 B2 A1; callVariable/on over AUDIT()+va, vb -> va vb; '
+        'and the control `host` (the listener subscribed by the host before the first formula, AUDIT not called) callFunction over '
+        'SUM(1,2), ABS(2) -> SUM ABS.')
 TRUSTED = ['callbacks are modelled as scripts of emitter operations; callbacks that raise are not modelled',
            'equality (==) of callbacks is modelled by callback ids: plain functions, and bound methods of host objects '
            'fetched anew for every on/once/off (equal, not identical), and functools.wraps-decorated versions of other callbacks; '
-           'flavour, late filling of the context, what the callbacks return, the event names used (n0, n1, ... or the '
-           'parser\'s own) and Emitter / Parser / Parser(debug=True) are not part of the model request: the model answer is the same',
+           'flavour, late filling of the context, what the callbacks return, the event names used (n0, n1, ..., the '
+           'parser\'s own or the snake_case ones), the formulas a snake history evaluates between its operations and Emitter / Parser / Parser(debug=True) are not part of the model request: the model answer is the same',
            'flavour orphan: weakref.ref and CPython reference counting decide whether the host object of a callback is still '
            'alive when the next on/once/off is written (an object no subscription holds is gone at once, a new one is made: its '
            'hook equals no subscribed one, and none is subscribed); in the model request these are the same callback ids as in every '
-           'other flavour']
+           'other flavour',
+           'snake histories on a Parser: Parser.parse of the 4 formulas (no listener of the parser\'s own event names is subscribed, '
+           'va is undefined there) is trusted to call none of the history\'s callbacks by itself - a callback it did call would show in '
+           'the log against model and reference emitter; what the formulas evaluate to is ignored',
+           'hostsub: the expected lists are written by hand from the reading below (not from the model, which has no formulas); they '
+           'rely on the evaluation order of the formulas (left to right: AUDIT() before SUM(1,2) in AUDIT()+SUM(1,2)) and on '
+           'Parser.call_function raising callFunction after the function has run (so AUDIT\'s own event is heard by the listener it '
+           'subscribed) - both are C10\'s subject']
 ASSUMPTIONS = ['a once-listener reached first by a nested emit receives that emit (it is called exactly once)',
                'an emit delivers to the subscriptions present when it starts, in subscription order (subscribing / unsubscribing during '
                'delivery takes effect from the next emit; a once-listener that already fired is skipped); off(name, cb) removes every '
@@ -54,7 +79,14 @@ ASSUMPTIONS = ['a once-listener reached first by a nested emit receives that emi
                'any other',
                'a subscription keeps its listener alive: a bound method of an object that nothing else refers to '
                '(parser.on(name, Sheet(rows).cell)) is delivered to as long as it is subscribed, and off(name, obj.hook) written '
-               'with the same object removes it']
+               'with the same object removes it',
+               'event names are plain keys: names that are the snake_case spellings of the Parser\'s methods (call_cell_value, '
+               'call_range_value, call_function, call_variable) obey the same on / once / off / emit semantics on a Parser as any '
+               'other name, and the parser\'s own evaluations between the operations neither deliver to them nor disturb their '
+               'subscriptions',
+               'a listener subscribed from inside a host function, while an evaluation of the same parser is in progress, is a '
+               'listener from then on: it hears every later emit of that name (on: all of them, in that and in later evaluations; '
+               'once: the next one only), on a plain parser and on one built with debug=True alike']
 EXHAUSTIVE = {'quick': False, 'thorough': False}
 
 CALL_BUDGET = 3000
